@@ -122,7 +122,7 @@ func (ra *RestAgent) handler() {
 // receiveBundleMessage checks incoming BundleMessages and puts them inbox.
 func (ra *RestAgent) receiveBundleMessage(msg BundleMessage) {
 	var uuids []string
-	ra.clients.Range(func(k, v interface{}) bool {
+	simRangeClients(&ra.clients, func(k, v interface{}) bool {
 		if bagHasEndpoint(msg.Recipients(), v.(bpv7.EndpointID)) {
 			uuids = append(uuids, k.(string))
 		}
@@ -274,7 +274,7 @@ func (ra *RestAgent) handleBuild(w http.ResponseWriter, r *http.Request) {
 }
 
 func (ra *RestAgent) Endpoints() (eids []bpv7.EndpointID) {
-	ra.clients.Range(func(_, v interface{}) bool {
+	simRangeClients(&ra.clients, func(_, v interface{}) bool {
 		eids = append(eids, v.(bpv7.EndpointID))
 		return true
 	})
